@@ -20,6 +20,7 @@ import (
 	"github.com/hashicorp/raft"
 	"github.com/hashicorp/raft-wal/metrics"
 	"github.com/hashicorp/raft-wal/types"
+	"github.com/hashicorp/raft-wal/verifhook"
 )
 
 var (
@@ -231,6 +232,7 @@ func Open(dir string, opts ...walOpt) (*WAL, error) {
 	w.deleteSegments(toDelete)
 
 	// Start the rotation routine
+	verifhook.At("rotate.spawn", w.dir)
 	go w.runRotate()
 
 	return w, nil
@@ -281,6 +283,7 @@ func (w *WAL) mutateStateLocked(tx stateTxn) error {
 	}
 
 	w.s.Store(&newS)
+	verifhook.At("mutate.stored", w.dir)
 	s.finalizer.Store(fn)
 	return nil
 }
@@ -291,6 +294,7 @@ func (w *WAL) mutateStateLocked(tx stateTxn) error {
 // truncated concurrently.
 func (w *WAL) acquireState() (*state, func()) {
 	s := w.loadState()
+	verifhook.At("acquireState.loaded", w.dir)
 	return s, s.acquire()
 }
 
@@ -314,6 +318,7 @@ func (w *WAL) FirstIndex() (uint64, error) {
 	if err := w.checkClosed(); err != nil {
 		return 0, err
 	}
+	verifhook.At("FirstIndex.afterClosedCheck", w.dir)
 	s, release := w.acquireState()
 	defer release()
 	return s.firstIndex(), nil
@@ -324,6 +329,7 @@ func (w *WAL) LastIndex() (uint64, error) {
 	if err := w.checkClosed(); err != nil {
 		return 0, err
 	}
+	verifhook.At("LastIndex.afterClosedCheck", w.dir)
 	s, release := w.acquireState()
 	defer release()
 	return s.lastIndex(), nil
@@ -334,6 +340,7 @@ func (w *WAL) GetLog(index uint64, log *raft.Log) error {
 	if err := w.checkClosed(); err != nil {
 		return err
 	}
+	verifhook.At("GetLog.afterClosedCheck", w.dir)
 	s, release := w.acquireState()
 	defer release()
 	w.metrics.IncrementCounter("log_entries_read", 1)
@@ -359,10 +366,12 @@ func (w *WAL) StoreLogs(logs []*raft.Log) error {
 	if err := w.checkClosed(); err != nil {
 		return err
 	}
+	verifhook.At("StoreLogs.afterClosedCheck", w.dir)
 	if len(logs) < 1 {
 		return nil
 	}
 
+	verifhook.At("writeMu.lock", w.dir)
 	w.writeMu.Lock()
 	defer w.writeMu.Unlock()
 
@@ -453,7 +462,10 @@ func (w *WAL) awaitRotationLocked() {
 		// We managed to race for writeMu with the background rotate operation which
 		// needs to complete first. Wait for it to complete.
 		w.writeMu.Unlock()
+		verifhook.At("writeMu.unlocked", w.dir)
+		verifhook.At("awaitRotate.wait", w.dir)
 		<-awaitCh
+		verifhook.At("writeMu.lock", w.dir)
 		w.writeMu.Lock()
 	}
 }
@@ -465,11 +477,13 @@ func (w *WAL) DeleteRange(min uint64, max uint64) error {
 	if err := w.checkClosed(); err != nil {
 		return err
 	}
+	verifhook.At("DeleteRange.afterClosedCheck", w.dir)
 	if min > max {
 		// Empty inclusive range.
 		return nil
 	}
 
+	verifhook.At("writeMu.lock", w.dir)
 	w.writeMu.Lock()
 	defer w.writeMu.Unlock()
 
@@ -526,6 +540,7 @@ func (w *WAL) Set(key []byte, val []byte) error {
 	if err := w.checkClosed(); err != nil {
 		return err
 	}
+	verifhook.At("Set.afterClosedCheck", w.dir)
 	w.metrics.IncrementCounter("stable_sets", 1)
 	return w.metaDB.SetStable(key, val)
 }
@@ -535,6 +550,7 @@ func (w *WAL) Get(key []byte) ([]byte, error) {
 	if err := w.checkClosed(); err != nil {
 		return nil, err
 	}
+	verifhook.At("Get.afterClosedCheck", w.dir)
 	w.metrics.IncrementCounter("stable_gets", 1)
 	return w.metaDB.GetStable(key)
 }
@@ -573,12 +589,15 @@ func (w *WAL) triggerRotateLocked(indexStart uint64) {
 	}
 	w.awaitRotate = make(chan struct{})
 	w.triggerRotate <- indexStart
+	verifhook.At("rotate.triggered", w.dir)
 }
 
 func (w *WAL) runRotate() {
 	for {
+		verifhook.At("rotate.idle", w.dir)
 		indexStart := <-w.triggerRotate
 
+		verifhook.At("writeMu.lock", w.dir)
 		w.writeMu.Lock()
 
 		// Either triggerRotate was closed by Close, or Close raced with a real
@@ -589,6 +608,8 @@ func (w *WAL) runRotate() {
 		closed := atomic.LoadUint32(&w.closed)
 		if closed == 1 {
 			w.writeMu.Unlock()
+			verifhook.At("writeMu.unlocked", w.dir)
+			verifhook.At("rotate.exit", w.dir)
 			return
 		}
 
@@ -601,9 +622,11 @@ func (w *WAL) runRotate() {
 		done := w.awaitRotate
 		w.awaitRotate = nil
 		w.writeMu.Unlock()
+		verifhook.At("writeMu.unlocked", w.dir)
 		// Now we are done, close the channel to unblock the waiting writer if there
 		// is one
 		close(done)
+		verifhook.At("rotate.done", w.dir)
 	}
 }
 
@@ -911,8 +934,10 @@ func (w *WAL) Close() error {
 		// Only close once
 		return nil
 	}
+	verifhook.At("Close.flagged", w.dir)
 
 	// Wait for writes
+	verifhook.At("writeMu.lock", w.dir)
 	w.writeMu.Lock()
 	defer w.writeMu.Unlock()
 
@@ -921,6 +946,7 @@ func (w *WAL) Close() error {
 	w.awaitRotate = nil
 	// Awake and terminate the runRotate
 	close(w.triggerRotate)
+	verifhook.At("rotate.chanClosed", w.dir)
 
 	// Replace state with nil state
 	s := w.loadState()
